@@ -535,6 +535,9 @@ class Interp:
     def s_For(self, st, env):
         it = self.eval(st.iter, env)
         seq = self.ops.iterate(it, st.iter, env)  # ("concrete", [vals]) | ("abstract", elem, info)
+        if seq[0] != "concrete" and seq[1] is None:
+            # summary of a collection that never received an element
+            seq = ("concrete", [])
         if seq[0] != "concrete" and self.join_depth == 0 and self._range_known_empty(it):
             # `range(c)` where this path already decided `c > 0` to be false: zero iterations
             self.event("decision", st, test=f"{norm_text(st.iter)} is empty", outcome=True, forced=True, compares=[])
@@ -697,7 +700,9 @@ class Interp:
                     if va.payload is not None or vb.payload is not None:
                         va.payload = join(va.payload, vb.payload)
                 return va
-            return Unk("join of distinct objects")
+            from .values import join_objects
+
+            return join_objects(va, vb)
         if isinstance(va, (FuncV, LambdaV, BoundV, PartialV, ClassV, ExtV, ModV, VmapV)):
             return va if type(va) is type(vb) else Unk("join of callables")
         return join(va, vb)
